@@ -65,8 +65,7 @@ structure ChanAnn where
   n2 : Key
   b1 : Key
   b2 : Key
-  feat : Blob
-  tap : Bool           -- feature bits announce a simple-taproot channel (function of `feat`)
+  feat : Blob          -- hex of the raw feature vector (big-endian bytes)
   extra : Blob
   bs1 : Sig
   bs2 : Sig
@@ -101,6 +100,21 @@ inductive Msg where
   | cu (u : ChanUpd)
   | na (n : NodeAnn)
   deriving DecidableEq, Repr
+
+def hexVal (c : Char) : Nat :=
+  if '0' ≤ c ∧ c ≤ '9' then c.toNat - '0'.toNat
+  else if 'a' ≤ c ∧ c ≤ 'f' then c.toNat - 'a'.toNat + 10
+  else 0
+
+/-- `features.HasFeature(SimpleTaprootChannelsOptionalStaging)`: bit 180 or 181 of the feature
+    vector (byte 22 from the end, mask 0x30) — the announcement's funding script is then the
+    taproot one.  A function of the signed `feat` field. -/
+def tapOf (feat : Blob) : Bool :=
+  let cs := feat.toList
+  let n := cs.length / 2
+  if n < 23 then false else hexVal (cs.getD (2 * (n - 23)) '0') % 4 != 0
+
+def ChanAnn.tap (a : ChanAnn) : Bool := tapOf a.feat
 
 def hasMax (mf : Nat) : Bool := mf % 2 == 1
 def dirOf (cf : Nat) : Nat := cf % 2
@@ -373,6 +387,19 @@ def stepNode (s : State) (n : NodeAnn) : StepOut :=
       else
         ⟨{ s with g := { s.g with nodes := upsert n.node ⟨n.ts, some n.fields⟩ s.g.nodes } }, .ok,
           if s.g.isPublic n.node then [.na n] else []⟩
+
+/-! ### pruning (`ChannelGraph.PruneGraph` for a closed channel) -/
+
+/-- is `k` an endpoint of some channel of the map -/
+def endpointOf (chans : List (Scid × ChanInfo)) (k : Key) : Bool :=
+  chans.any (fun ch => lookup ch.1 chans == some ch.2 && (ch.2.n1 == k || ch.2.n2 == k))
+
+/-- The funding output of `c` was spent on chain: the channel and its policies are deleted and
+    nodes left without any channel (except our own node) are garbage-collected. -/
+def Graph.prune (self : Key) (g : Graph) (c : Scid) : Graph :=
+  let chans := erase c g.chans
+  { g with chans := chans, pols := erase (c, 1) (erase (c, 0) g.pols),
+           nodes := g.nodes.filter (fun kn => kn.1 == self || endpointOf chans kn.1) }
 
 /-! ### dispatch, replays, blocks -/
 
